@@ -619,9 +619,20 @@ def _key_class(e):
         if a[0] == "call" and a[2].endswith("Lit::code") and len(a[3]) == 1:
             return ("plain", a[3][0])
         return ("other", e)
-    if e[0] in ("l", "f"):
+    if _is_source_lit(e):
         return ("plain", e)
     return ("other", e)
+
+
+def _is_source_lit(e):
+    """a literal read from the circuit as it stands: a variable, a field, an element (`v[i]`, `v[i].output`)"""
+    if e[0] == "l":
+        return True
+    if e[0] == "f":
+        return _is_source_lit(e[1])
+    if e[0] == "call" and e[2].rsplit("::", 1)[-1] in ("index", "get_unchecked", "deref") and e[3]:
+        return _is_source_lit(e[3][0])
+    return False
 
 
 def run_r8(ctx, rule):
@@ -685,6 +696,57 @@ def run_r8(ctx, rule):
             ok = x in other or (k[0] == "plain" and x[0] == "l" and both_arrays)
             rule.check(ok, key + "/both-polarities", "%s asks for %s under both polarities" % (short(nid), sy.show(k[1])), f.loc(bb))
 
+# ---- R9 -----------------------------------------------------------------------------------------
+def _last_fields(f, e, depth=0):
+    """names of the fields a literal value is read from, one step back (a variable: over all its definitions)"""
+    sy = sym(f)
+    if depth > 3:
+        return set()
+    if e[0] == "f" and not e[2].isdigit():
+        return {e[2]}
+    if e[0] in ("f", "v", "cast"):
+        return _last_fields(f, e[1] if e[0] != "cast" else e[2], depth + 1)
+    if e[0] == "l":
+        out = set()
+        for d in sy.defs.get(e[1], []):
+            if d[0] == "stmt":
+                out |= _last_fields(f, sy.rvalue(d[3], 1), depth + 1)
+        if not out and sy.is_arg(e[1]):
+            nm = f.vars.get(e[1]) if isinstance(f.vars, dict) else None
+            if nm:
+                out.add(nm)
+        return out
+    return set()
+
+
+def run_r9(ctx, rule):
+    """Two literals are compared for identity only when they are of the same kind: the literal a transfer was asked
+    for (`lit`, either polarity of its variable) against the literal another transfer was asked for -- not against
+    the output literal of a definition as written, which names the same gate under one polarity only (a cycle
+    entered through an inverted edge would not be recognised)."""
+    facts = ctx.facts
+    n = 0
+    for name in ("Renumber::transfer", "Renumber::initialize"):
+        f = afn(facts, name)
+        sy = sym(f)
+        seen = set()
+        for bb, t in f.calls():
+            cn = norm(util.cname(t))
+            if "PartialEq" not in cn or len(t["args"]) != 2:
+                continue
+            a, b = [sy.operand(x) for x in t["args"]]
+            fa, fb = _last_fields(f, a), _last_fields(f, b)
+            if not fa or not fb:
+                continue
+            k = (tuple(sorted(fa)), tuple(sorted(fb)))
+            if k in seen:
+                continue
+            seen.add(k)
+            n += 1
+            rule.check(fa == fb, "%s/compare/%s-vs-%s" % (name, "+".join(sorted(fa)), "+".join(sorted(fb))), "%s compares literals of the same kind (%s with %s)" % (name, sorted(fa), sorted(fb)), f.loc(bb))
+    if n == 0:
+        rule.bad("compare/sites", "no literal comparison found in transfer (the cycle test was confirmed by hand)", kind="anchor-missing")
+
 
 def run(ctx):
     r1 = ctx.rule("C12-R1", "the renumbering code is not recursive (explicit stack)", floor=2)
@@ -697,6 +759,8 @@ def run(ctx):
     run_r4(ctx, r4)
     r5 = ctx.rule("C12-R5", "polarity discipline of LitMap and transfer", floor=8)
     run_r5(ctx, r5)
+    r9 = ctx.rule("C12-R9", "literals are compared for identity only with literals of the same kind (requested with requested, not with a definition's output as written)", floor=1)
+    run_r9(ctx, r9)
     r8 = ctx.rule("C12-R8", "the definition table is keyed by literals as written and every question to it covers both polarities", floor=7)
     run_r8(ctx, r8)
     r7 = ctx.rule("C12-R7", "source-circuit literals and renumbered literals are never compared, and each is used where its numbering is meant", floor=4)
